@@ -51,11 +51,16 @@ def observe(C, A, res):
             if isinstance(s, str):
                 d, o['parse_err'] = _call(p, s)
                 o['parsed'] = _items(d)
+                if isinstance(d, dict) and not d:
+                    # the dict belongs to the caller: writing to it must not show up in any later result
+                    d['verif_caller_wrote_here'] = 'x'
                 if isinstance(d, dict) and d:
                     o['rebuilt'], o['rebuilt_err'] = _call(b, **d)
                 if all(has_async):
                     ab, e1 = _call(getattr(A, bn), **c['args'])
                     ad, e2 = _call(getattr(A, pn), s)
+                    if isinstance(ad, dict) and 'verif_caller_wrote_here' in ad:
+                        ad = dict(ad)          # (reported through the sync observation of a later call; keep this comparison about agreement)
                     o['a_built'], o['a_parsed'], o['a_err'] = ab, _items(ad), e1 or e2
         out.append(o)
     return out
